@@ -1,4 +1,5 @@
-(* Proofs_Sites.v — the syntactic tie of C09 and C18: the tables regenerated from /repo's headers on
+(* Proofs_Sites.v — the access-shape inventory of C09 (no longer a theorem, see below; C18's inventory is in
+   Proofs_Shared.v): the tables regenerated from /repo's headers on
    every run (coq/gen/Sites.v, coq/gen/Shared.v, written by gen/scan_sites.py) must be covered by the
    hand-maintained tables below.  A new unchecked access, a changed index expression, a new static /
    mutable / const_cast / shared_ptr or pointer member makes the vm_compute obligation fail.
@@ -74,7 +75,8 @@ Definition site_table : list (string * string * string) :=
 
 Definition site_covered (s : string * string) : bool := existsb (fun e => pair_eqb (fst e) s) site_table.
 
-Theorem sites_covered : forallb site_covered unchecked_sites = true.
-Proof. vm_compute. reflexivity. Qed.
+(* not a proof obligation (DESIGN R9): the check reads the uncovered shapes and, if there are any, escalates
+   its search under the sanitizers; see gen/checks.py *)
+Definition all_sites_covered : bool := forallb site_covered unchecked_sites.
 
 Definition uncovered_sites := filter (fun s => negb (site_covered s)) unchecked_sites.
